@@ -34,11 +34,13 @@ type featVar struct {
 var serverVars = map[string]featVar{
 	"L1lc": {[]uint{1}, lLCServer, true, model.RoleTypeServer, model.FeatureTypeTypeLoadControl},
 	"L2lc": {[]uint{2}, lLCServer, true, model.RoleTypeServer, model.FeatureTypeTypeLoadControl},
-	"L1ms": {[]uint{1}, lMeasServer, true, model.RoleTypeServer, model.FeatureTypeTypeMeasurement},
-	"L1cl": {[]uint{1}, lLCClient, true, model.RoleTypeClient, model.FeatureTypeTypeLoadControl},
-	"Lnm":  {[]uint{0}, 0, true, model.RoleTypeSpecial, model.FeatureTypeTypeNodeManagement},
-	"L1x":  {[]uint{1}, 9, false, "", ""},
-	"L9":   {[]uint{9}, 1, false, "", ""},
+	// sub-entity [1,1] of [1] with the same feature numbers (worlds built with nested entities only)
+	"L11lc": {[]uint{1, 1}, lLCServer, true, model.RoleTypeServer, model.FeatureTypeTypeLoadControl},
+	"L1ms":  {[]uint{1}, lMeasServer, true, model.RoleTypeServer, model.FeatureTypeTypeMeasurement},
+	"L1cl":  {[]uint{1}, lLCClient, true, model.RoleTypeClient, model.FeatureTypeTypeLoadControl},
+	"Lnm":   {[]uint{0}, 0, true, model.RoleTypeSpecial, model.FeatureTypeTypeNodeManagement},
+	"L1x":   {[]uint{1}, 9, false, "", ""},
+	"L9":    {[]uint{9}, 1, false, "", ""},
 }
 
 // client features as announced by every peer (clientEntity)
@@ -46,10 +48,16 @@ func clientVar(c string) featVar {
 	if c == "nm" {
 		return featVar{[]uint{0}, 0, true, model.RoleTypeSpecial, model.FeatureTypeTypeNodeManagement}
 	}
-	var e, f uint
-	fmt.Sscanf(c, "e%df%d", &e, &f)
-	v := featVar{ent: []uint{e}, feat: f}
-	if e != 1 && e != 2 {
+	// e<entity digits>f<feature>: e1f1 = [1]/1, e11f1 = [1,1]/1
+	var f uint
+	i := strings.Index(c, "f")
+	fmt.Sscanf(c[i+1:], "%d", &f)
+	var ent []uint
+	for _, ch := range c[1:i] {
+		ent = append(ent, uint(ch-'0'))
+	}
+	v := featVar{ent: ent, feat: f}
+	if code := entCode(ent); code != 1 && code != 2 && code != 11 {
 		return v
 	}
 	switch f {
@@ -63,6 +71,22 @@ func clientVar(c string) featVar {
 		v.exists, v.role, v.typ = true, model.RoleTypeServer, model.FeatureTypeTypeMeasurement
 	}
 	return v
+}
+
+// entCode / entAddr: entity addresses as decimal codes ([1] = 1, [1,1] = 11) for operation strings and model keys.
+func entCode(a []uint) uint {
+	c := uint(0)
+	for _, x := range a {
+		c = c*10 + x
+	}
+	return c
+}
+
+func entAddr(code uint) []uint {
+	if code < 10 {
+		return []uint{code}
+	}
+	return append(entAddr(code/10), code%10)
 }
 
 var typeVars = map[string]model.FeatureTypeType{"lc": model.FeatureTypeTypeLoadControl, "ms": model.FeatureTypeTypeMeasurement, "nm": model.FeatureTypeTypeNodeManagement}
@@ -87,13 +111,22 @@ type regModel struct {
 	lbinds      map[string]bool
 	pend        []pendW
 	undisc      map[string]bool // connected, detailed discovery not yet received
+	nested      bool            // peers also announce [1,1]
+}
+
+func (m *regModel) allEnts() map[uint]bool {
+	e := map[uint]bool{0: true, 1: true, 2: true}
+	if m.nested {
+		e[11] = true
+	}
+	return e
 }
 
 func newRegModel() *regModel {
 	m := &regModel{conn: map[string]bool{}, ents: map[string]map[uint]bool{}, data: map[string]int{}, lsubs: map[string]bool{}, lbinds: map[string]bool{}, undisc: map[string]bool{}}
 	for _, p := range []string{"A", "B"} {
 		m.conn[p] = true
-		m.ents[p] = map[uint]bool{0: true, 1: true, 2: true}
+		m.ents[p] = m.allEnts()
 	}
 	return m
 }
@@ -109,7 +142,7 @@ func has(l []regEntry, e regEntry) bool {
 
 func (m *regModel) clientOK(p, c string, t model.FeatureTypeType) bool {
 	cv := clientVar(c)
-	if !m.conn[p] || !cv.exists || !m.ents[p][cv.ent[0]] {
+	if !m.conn[p] || !cv.exists || !m.ents[p][entCode(cv.ent)] {
 		return false
 	}
 	return (cv.role == model.RoleTypeClient || cv.role == model.RoleTypeSpecial) && cv.typ == t
@@ -117,7 +150,7 @@ func (m *regModel) clientOK(p, c string, t model.FeatureTypeType) bool {
 
 func (m *regModel) clientExists(p, c string) bool {
 	cv := clientVar(c)
-	return m.conn[p] && cv.exists && m.ents[p][cv.ent[0]]
+	return m.conn[p] && cv.exists && m.ents[p][entCode(cv.ent)]
 }
 
 func serverOK(s string, t model.FeatureTypeType) bool {
@@ -146,6 +179,8 @@ type regWorld struct {
 	approval bool // both LoadControl servers have a (silent) write approval callback
 	evOn     bool
 	pendMsgs []*api.Message
+	nested   bool
+	servers  []string // LoadControl server variants of this world
 }
 
 func limitList(v int, ids ...uint) *model.LoadControlLimitListDataType {
@@ -167,9 +202,37 @@ func limitDescList(v int) *model.LoadControlLimitDescriptionListDataType {
 	}}
 }
 
-func newRegWorld(events, approval bool) *regWorld {
-	rw := &regWorld{w: stdWorld(events, "A", "B"), m: newRegModel(), approval: approval}
-	for _, s := range []string{"L1lc", "L2lc"} {
+func newRegWorld(events, approval bool) *regWorld { return newRegWorldN(events, approval, false) }
+
+// peerEnts: what every peer announces (identical numbers on every peer).
+func peerEnts(nested bool) []world.EntSpec {
+	e := []world.EntSpec{clientEntity([]uint{1}), clientEntity([]uint{2})}
+	if nested {
+		e = []world.EntSpec{clientEntity([]uint{1}), clientEntity([]uint{1, 1}), clientEntity([]uint{2})}
+	}
+	return e
+}
+
+// newRegWorldN: with nested set, the local device also has the sub-entity [1,1] (same feature numbers as its
+// parent [1]) and every peer announces a sub-entity [1,1] with the same client features, so that every address
+// comparison by prefix, by length or by last element has a colliding instance.
+func newRegWorldN(events, approval, nested bool) *regWorld {
+	w := world.New(events)
+	stdLocal(w)
+	servers := []string{"L1lc", "L2lc"}
+	if nested {
+		stdLocalEntity(w, []uint{1, 1})
+		servers = append(servers, "L11lc")
+	}
+	for _, p := range []string{"A", "B"} {
+		w.ConnectAndAnnounce(p, "d"+p, peerEnts(nested))
+	}
+	rw := &regWorld{w: w, m: newRegModel(), approval: approval, nested: nested, servers: servers}
+	rw.m.nested = nested
+	for _, p := range []string{"A", "B"} {
+		rw.m.ents[p] = rw.m.allEnts()
+	}
+	for _, s := range servers {
 		f := rw.local(s)
 		f.SetData(fnLimit, limitList(1, 1, 2))
 		rw.m.data[s] = 1
@@ -283,7 +346,7 @@ func (rw *regWorld) dump() (impl, ref string) {
 		if d != nil {
 			var es []string
 			for _, e := range d.Entities() {
-				if len(e.Address().Entity) == 1 { // sub-entities are C06's subject (compared there)
+				if len(e.Address().Entity) == 1 || rw.nested { // (without nesting: sub-entities are C06's subject, compared there)
 					es = append(es, fmt.Sprint(e.Address().Entity))
 				}
 			}
@@ -293,7 +356,7 @@ func (rw *regWorld) dump() (impl, ref string) {
 		if m.conn[p] {
 			var es []string
 			for e := range m.ents[p] {
-				es = append(es, fmt.Sprint([]uint{e}))
+				es = append(es, fmt.Sprint(entAddr(e)))
 			}
 			sort.Strings(es)
 			mc = append(mc, p+strings.Join(es, ""))
@@ -301,7 +364,7 @@ func (rw *regWorld) dump() (impl, ref string) {
 	}
 	// data
 	var id, md []string
-	for _, s := range []string{"L1lc", "L2lc"} {
+	for _, s := range rw.servers {
 		id = append(id, s+"="+world.JSON(rw.local(s).DataCopy(fnLimit)))
 		md = append(md, s+"="+world.JSON(limitList(m.data[s], 1, 2)))
 		// functions no remote write may change: announced read-only, and not announced at all
@@ -352,6 +415,29 @@ func (rw *regWorld) dump() (impl, ref string) {
 		impl += " DUPLICATE-ID"
 	}
 	return
+}
+
+func (rw *regWorld) identityKey() string {
+	var s []string
+	for _, p := range []string{"A", "B"} {
+		pe := rw.w.Peers[p]
+		d := rw.w.L.RemoteDeviceForSki(p)
+		if d == nil {
+			continue
+		}
+		for _, e := range rw.w.L.SubscriptionManager().Subscriptions(pe.Dev) {
+			if d.FeatureByAddress(e.ClientFeature.Address()) != e.ClientFeature {
+				s = append(s, "s"+p+cliStr(e.ClientFeature.Address())+">"+world.AddrStr(e.ServerFeature.Address()))
+			}
+		}
+		for _, e := range rw.w.L.BindingManager().Bindings(pe.Dev) {
+			if d.FeatureByAddress(e.ClientFeature.Address()) != e.ClientFeature {
+				s = append(s, "b"+p+cliStr(e.ClientFeature.Address())+">"+world.AddrStr(e.ServerFeature.Address()))
+			}
+		}
+	}
+	sort.Strings(s)
+	return " replaced=" + strings.Join(s, ",")
 }
 
 // expectation for the outbound trace of one operation
@@ -444,7 +530,7 @@ func (rw *regWorld) apply(op string, judge bool) (viol []string, digest string, 
 		}
 		effect = true
 		judge = false
-		ents := []world.EntSpec{clientEntity([]uint{1}), clientEntity([]uint{2})}
+		ents := peerEnts(rw.nested)
 		pe := w.Connect(p, "d"+p)
 		pe.Ents = ents
 		rt.WaitIdle()
@@ -469,7 +555,7 @@ func (rw *regWorld) apply(op string, judge bool) (viol []string, digest string, 
 			addV(fmt.Sprintf("a peer that announces itself after another peer was removed is not served like a new peer | nodeManagement subscription requests=%d use-case reads=%d (want 1 and 1) op=%s", nsub, nuc, op))
 		}
 		m.conn[p] = true
-		m.ents[p] = map[uint]bool{0: true, 1: true, 2: true}
+		m.ents[p] = m.allEnts()
 	case "sub", "bind", "unsub", "unbind":
 		p, c, s := f[1], f[2], f[3]
 		pe := w.Peers[p]
@@ -547,7 +633,7 @@ func (rw *regWorld) apply(op string, judge bool) (viol []string, digest string, 
 		writable := false
 		if fn == "limit" {
 			cmd = model.CmdType{LoadControlLimitListData: limitList(v, 1, 2)}
-			writable = s == "L1lc" || s == "L2lc"
+			writable = s == "L1lc" || s == "L2lc" || s == "L11lc"
 		} else if fn == "constr" {
 			// a function of the feature type that the server feature does not announce at all
 			cmd = model.CmdType{LoadControlLimitConstraintsListData: &model.LoadControlLimitConstraintsListDataType{LoadControlLimitConstraintsData: []model.LoadControlLimitConstraintsDataType{
@@ -555,7 +641,13 @@ func (rw *regWorld) apply(op string, judge bool) (viol []string, digest string, 
 		} else {
 			cmd = model.CmdType{LoadControlLimitDescriptionListData: limitDescList(v)}
 		}
-		d := pe.Datagram(cliAddr(p, c, true), srvAddr(s, true), model.CmdClassifierTypeWrite, ack, nil, cmd)
+		// optional 8th field: device part of the source address in the header — "x" names the OTHER peer's
+		// device, "n" omits it; the writer is the feature of the connection the datagram arrives on either way
+		srcA := cliAddr(p, c, true)
+		if len(f) > 7 {
+			srcA = cliAddrMode(p, c, f[7])
+		}
+		d := pe.Datagram(srcA, srvAddr(s, true), model.CmdClassifierTypeWrite, ack, nil, cmd)
 		srcKnown := m.clientExists(p, c)
 		accept := srcKnown && serverVars[s].exists && writable && has(m.binds, regEntry{p, c, s})
 		pending := accept && rw.approval
@@ -568,10 +660,10 @@ func (rw *regWorld) apply(op string, judge bool) (viol []string, digest string, 
 			exp = append(exp, rw.fanout(s, false)...)
 			expEv[fmt.Sprint(api.EventTypeDataChange, api.ElementChangeUpdate)]++
 			if ack {
-				exp = append(exp, expOut{conn: cn(p), class: "result", src: world.AddrStr(srvAddr(s, true)), dst: world.AddrStr(cliAddr(p, c, true)), ref: int64(*d.Header.MsgCounter), err: 0})
+				exp = append(exp, expOut{conn: cn(p), class: "result", src: world.AddrStr(srvAddr(s, true)), dst: world.AddrStr(srcA), ref: int64(*d.Header.MsgCounter), err: 0})
 			}
 		case srcKnown:
-			exp = append(exp, expOut{conn: cn(p), class: "result", src: world.AddrStr(srvAddr(s, true)), dst: world.AddrStr(cliAddr(p, c, true)), ref: int64(*d.Header.MsgCounter), err: 1})
+			exp = append(exp, expOut{conn: cn(p), class: "result", src: world.AddrStr(srvAddr(s, true)), dst: world.AddrStr(srcA), ref: int64(*d.Header.MsgCounter), err: 1})
 		}
 		pe.Deliver(d)
 	case "disc":
@@ -612,8 +704,8 @@ func (rw *regWorld) apply(op string, judge bool) (viol []string, digest string, 
 		if !m.conn[p] {
 			effect = true
 			m.conn[p] = true
-			m.ents[p] = map[uint]bool{0: true, 1: true, 2: true}
-			w.ConnectAndAnnounce(p, "d"+p, []world.EntSpec{clientEntity([]uint{1}), clientEntity([]uint{2})})
+			m.ents[p] = m.allEnts()
+			w.ConnectAndAnnounce(p, "d"+p, peerEnts(rw.nested))
 			judge = false // the connection handshake is C06/C01 territory
 		}
 	case "reconn0":
@@ -633,9 +725,9 @@ func (rw *regWorld) apply(op string, judge bool) (viol []string, digest string, 
 		if m.conn[p] && m.undisc[p] {
 			effect = true
 			m.undisc[p] = false
-			m.ents[p] = map[uint]bool{0: true, 1: true, 2: true}
+			m.ents[p] = m.allEnts()
 			pe := w.Peers[p]
-			pe.Ents = []world.EntSpec{clientEntity([]uint{1}), clientEntity([]uint{2})}
+			pe.Ents = peerEnts(rw.nested)
 			pe.Deliver(pe.DiscoveryReply(pe.Ents))
 			judge = false
 		}
@@ -646,10 +738,10 @@ func (rw *regWorld) apply(op string, judge bool) (viol []string, digest string, 
 			break
 		}
 		st := model.NetworkManagementStateChangeTypeRemoved
-		ents := []world.EntSpec{{Addr: []uint{e}, Type: model.EntityTypeTypeCEM}}
+		ents := []world.EntSpec{{Addr: entAddr(e), Type: model.EntityTypeTypeCEM}}
 		if f[0] == "entadd" {
 			st = model.NetworkManagementStateChangeTypeAdded
-			ents = []world.EntSpec{clientEntity([]uint{e})}
+			ents = []world.EntSpec{clientEntity(entAddr(e))}
 		}
 		cmd := model.CmdType{
 			Function:                            util.Ptr(model.FunctionTypeNodeManagementDetailedDiscoveryData),
@@ -661,9 +753,9 @@ func (rw *regWorld) apply(op string, judge bool) (viol []string, digest string, 
 			effect = true
 			delete(m.ents[p], e)
 			var n int
-			m.subs, n = dropWhere(m.subs, func(x regEntry) bool { return x.peer == p && clientVar(x.c).ent[0] == e })
+			m.subs, n = dropWhere(m.subs, func(x regEntry) bool { return x.peer == p && entCode(clientVar(x.c).ent) == e })
 			expEv[fmt.Sprint(api.EventTypeSubscriptionChange, api.ElementChangeRemove)] += n
-			m.binds, n = dropWhere(m.binds, func(x regEntry) bool { return x.peer == p && clientVar(x.c).ent[0] == e })
+			m.binds, n = dropWhere(m.binds, func(x regEntry) bool { return x.peer == p && entCode(clientVar(x.c).ent) == e })
 			expEv[fmt.Sprint(api.EventTypeBindingChange, api.ElementChangeRemove)] += n
 			expEv[fmt.Sprint(api.EventTypeEntityChange, api.ElementChangeRemove)]++
 			for _, l := range []uint{1, 2} {
@@ -765,10 +857,20 @@ func atoi(s string) int {
 	return n
 }
 
+func mentionsNested(ops []string) bool {
+	for _, o := range ops {
+		if strings.Contains(o, "L11") || strings.Contains(o, ":e11") || strings.HasSuffix(o, ":11") {
+			return true
+		}
+	}
+	return false
+}
+
 // regDriver builds an HDriver over the registry world.
 func regDriver(name string, alphabet []string, events, approval bool, extra func(rw *regWorld, op string) []string) *engine.HDriver {
+	nested := mentionsNested(alphabet)
 	return &engine.HDriver{Name: name, Alphabet: alphabet, Step: func(hist []string, op string) engine.HStep {
-		rw := newRegWorld(events, approval)
+		rw := newRegWorldN(events, approval, nested)
 		rw.evOn = events
 		rt.WaitIdle()
 		for _, h := range hist {
@@ -779,7 +881,10 @@ func regDriver(name string, alphabet []string, events, approval bool, extra func
 			st.Violations, st.Digest, st.Effect = rw.apply(op, true)
 		}
 		impl, ref := rw.dump()
-		st.Key = impl
+		// the state key also says which registry entries refer to feature objects that a re-announcement has
+		// replaced meanwhile: the statements do not mention it (so it is not compared with the model), but
+		// later behaviour may depend on it, and states that differ in it must not be merged
+		st.Key = impl + rw.identityKey()
 		if impl != ref {
 			st.Violations = append(st.Violations, stateDiff(impl, ref)+" | op="+op)
 			st.Cut = true
@@ -843,7 +948,11 @@ func (rw *regWorld) prepare(op string) func() {
 	case "write":
 		p, c, s, ack, v := f[1], f[2], f[3], f[5] == "ack", atoi(f[6])
 		pe := w.Peers[p]
-		d := pe.Datagram(cliAddr(p, c, true), srvAddr(s, true), model.CmdClassifierTypeWrite, ack, nil, model.CmdType{LoadControlLimitListData: limitList(v, 1, 2)})
+		srcA := cliAddr(p, c, true)
+		if len(f) > 7 {
+			srcA = cliAddrMode(p, c, f[7])
+		}
+		d := pe.Datagram(srcA, srvAddr(s, true), model.CmdClassifierTypeWrite, ack, nil, model.CmdType{LoadControlLimitListData: limitList(v, 1, 2)})
 		return func() { pe.Deliver(d) }
 	case "set":
 		fl, data := rw.local(f[1]), limitList(atoi(f[2]), 1, 2)
@@ -855,7 +964,7 @@ func (rw *regWorld) prepare(op string) func() {
 		cmd := model.CmdType{
 			Function:                            util.Ptr(model.FunctionTypeNodeManagementDetailedDiscoveryData),
 			Filter:                              []model.FilterType{*model.NewFilterTypePartial()},
-			NodeManagementDetailedDiscoveryData: pe.DiscoveryData([]world.EntSpec{{Addr: []uint{e}, Type: model.EntityTypeTypeCEM}}, false, &st),
+			NodeManagementDetailedDiscoveryData: pe.DiscoveryData([]world.EntSpec{{Addr: entAddr(e), Type: model.EntityTypeTypeCEM}}, false, &st),
 		}
 		d := pe.Datagram(pe.NM(), world.LocalNM(), model.CmdClassifierTypeNotify, false, nil, cmd)
 		return func() { pe.Deliver(d) }
